@@ -166,6 +166,38 @@ class FuncValue:
         return 'Func({})'.format(self.label or self.fdef.name)
 
 
+class RecordType:
+    """namedtuple / typing.NamedTuple / @dataclass with plain fields: a folded record constructor"""
+
+    def __init__(self, name, fields, defaults, is_tuple):
+        self.name, self.fields, self.defaults, self.is_tuple = name, list(fields), dict(defaults), is_tuple
+
+    def __repr__(self):
+        return 'RecordType({})'.format(self.name)
+
+
+class Record:
+    def __init__(self, rtype, values):
+        self.rtype, self.values = rtype, values       # values: {field: abstract value}
+
+    def as_list(self):
+        return [self.values[f] for f in self.rtype.fields]
+
+    def __eq__(self, o):
+        if not (isinstance(o, Record) and o.rtype is self.rtype):
+            return False
+        try:
+            return all(type(a) == type(b) and a == b for a, b in zip(self.as_list(), o.as_list()))
+        except Exception:
+            return False
+
+    def __hash__(self):
+        return hash(('Record', self.rtype.name))
+
+    def __repr__(self):
+        return '{}({})'.format(self.rtype.name, self.values)
+
+
 class Top:
     def __repr__(self):
         return 'TOP'
@@ -342,6 +374,26 @@ def cmp_pred(opt, b, what):
         if opt is ast.NotEq:
             return _subs(cell, (-INF, t - 1), (t + 1, INF)), _subs(cell, (t, t)), True
         raise Unsupported('comparison operator {} at {}'.format(opt.__name__, what))
+    return pred
+
+
+def interval_pred(a, b, positive):
+    """a <= current <= b"""
+    return intervals_pred([(a, b)], positive)
+
+
+def intervals_pred(ivs, positive):
+    """current in the union of the closed intervals ivs (sorted, disjoint)"""
+    def pred(cell, off):
+        inside, outside = [], []
+        cur = -INF
+        for a, b in ivs:
+            lo, hi = a - off, b - off
+            inside.extend(_subs(cell, (lo, hi)))
+            outside.extend(_subs(cell, (cur, lo - 1)))
+            cur = hi + 1
+        outside.extend(_subs(cell, (cur, INF)))
+        return (inside, outside, True) if positive else (outside, inside, True)
     return pred
 
 
